@@ -13,7 +13,7 @@ import types
 import numpy as np
 from hypothesis import strategies as st
 
-from ..core import Given
+from ..core import Given, deep
 from ..findings import is_open
 
 from cherab.tools.inversions.admt_utils import generate_derivative_operators, calculate_admt
@@ -327,8 +327,9 @@ _PI = math.pi
 
 
 @st.composite
-def grid_strategy(draw, lo=2, hi=12, any_x=False):
+def grid_strategy(draw, lo=2, hi=None, any_x=False):
     """any_x=True (derivative operators only, they never divide by R): x origin anywhere, also straddling 0."""
+    hi = deep(12, 24) if hi is None else hi
     small = st.integers(lo, min(hi, 4))
     n = st.one_of(small, st.integers(lo, hi), st.sampled_from([lo, hi]))
     nx, ny = draw(n), draw(n)
